@@ -100,6 +100,34 @@ fn scan_string_literal() {
 
 #[cfg(kani)]
 #[kani::proof]
+#[kani::unwind(6)]
+fn scan_string_literal_short() {
+  // every ASCII input of at most 3 bytes: cheap enough to finish whatever loop shape the scanner has (the 6-byte
+  // harness above ran into its time limit on a scanner rewritten with a forward scan); covers `"`, `"\` and `"\"`
+  const N: usize = 3;
+  let mut buf = [0u8; N];
+  let len = any_ascii(&mut buf);
+  let src = unsafe { std::str::from_utf8_unchecked(&buf[..len]) };
+  let mut lx = WrappedLogosLexer::new(src, ModuleReference::DUMMY);
+  let before = lx.position;
+  match lx.lex_str_lit_opt() {
+    Some((loc, s)) => {
+      let consumed = len - lx.lexer.remainder().len();
+      assert!(consumed >= 2 && s.len() == consumed);
+      assert!(buf[0] == b'"' && buf[consumed - 1] == b'"');
+      assert!(loc.start == before && loc.end == lx.position);
+      assert!(lx.position == advance(before, &buf[..consumed]));
+      kani::cover!(consumed == 3);
+    }
+    None => {
+      assert!(lx.position == before);
+      assert!(lx.lexer.remainder().len() == len);
+    }
+  }
+}
+
+#[cfg(kani)]
+#[kani::proof]
 #[kani::unwind(12)]
 #[kani::stub(core::str::count::count_chars, stub_count_chars)]
 fn scan_string_literal_multibyte() {
